@@ -26,7 +26,8 @@ type Step struct {
 	Kind  string    `json:"kind"` // write | txn | compact | reopen | idle
 	Recs  []dbh.Rec `json:"recs,omitempty"`
 	Sync  bool      `json:"sync,omitempty"`
-	Parts int       `json:"parts,omitempty"` // txn: number of Write calls the records are split into
+	Parts int       `json:"parts,omitempty"` // txn: number of Write calls the records are split into; cwrite: number of concurrent writers
+	Syncs []bool    `json:"syncs,omitempty"` // cwrite: the Sync option of each concurrent writer
 }
 
 type Workload struct {
